@@ -48,7 +48,7 @@ mut = "\n".join(mrows) + "\n\nControls: " + "; ".join(ctl) + "."
 # seeded: the full table goes to seeded/TABLE.md, DESIGN.md gets the per-round summary
 srows = ["| seeded change | breaks | code site | what it needs to manifest | checks that report it (quick) | outcome when first run |", "|---|---|---|---|---|---|"]
 rounds = {}
-for d in sorted(glob.glob("/verif/seeded/C*") + glob.glob("/verif/seeded/R[0-9]*") + glob.glob("/verif/seeded/S[0-9]*") + glob.glob("/verif/seeded/T[0-9]*") + glob.glob("/verif/seeded/U[0-9]*")):
+for d in sorted(glob.glob("/verif/seeded/C*") + glob.glob("/verif/seeded/R[0-9]*") + glob.glob("/verif/seeded/S[0-9]*") + glob.glob("/verif/seeded/T[0-9]*") + glob.glob("/verif/seeded/U[0-9]*") + glob.glob("/verif/seeded/V[0-9]*")):
     if not os.path.isdir(d):
         continue
     m = json.load(open(f"{d}/meta.json"))
@@ -78,7 +78,7 @@ open("/verif/seeded/TABLE.md", "w").write("# Independently seeded changes (gener
 sm = ["| round | changes | reported as built by the named property's check | only by another property's check | by none | reported after the extensions |", "|---|---|---|---|---|---|"]
 for r in sorted(rounds):
     n, a, b, c, dn = rounds[r]
-    label = {1: "1 (one per property)", 2: "2 (different site)", 3: "3 (hard to reach)", 4: "4 (hard to reach, new directions)", 5: "5 (by code region)", 6: "6 (by code region, second pass)", 7: "7 (by theme: interplay, configuration changes)", 8: "8 (by theme, second pass)"}.get(r, str(r))
+    label = {1: "1 (one per property)", 2: "2 (different site)", 3: "3 (hard to reach)", 4: "4 (hard to reach, new directions)", 5: "5 (by code region)", 6: "6 (by code region, second pass)", 7: "7 (by theme: interplay, configuration changes)", 8: "8 (by theme, second pass)", 9: "9 (by theme, third pass)"}.get(r, str(r))
     sm.append(f"| {label} | {n} | {a} | {b} | {c} | {dn} |")
 tot = [sum(v[i] for v in rounds.values()) for i in range(5)]
 sm.append(f"| **total** | {tot[0]} | {tot[1]} | {tot[2]} | {tot[3]} | {tot[4]} |")
